@@ -20,6 +20,7 @@ type gsxC18Env struct {
 	globNames  map[string][]string // pattern -> names
 	globBad    map[string]bool     // pattern -> ErrBadPattern
 	readFails  map[string]bool
+	emptyFile  map[string]bool
 	loadResult map[string]int // 0 ok, 1 import fault, 2 dsl fault
 	groups     []*ruleguard.GoRuleGroup
 	// observations
@@ -42,6 +43,9 @@ func gsxStubGlob(pattern string) ([]string, error) {
 func gsxStubReadFile(name string) ([]byte, error) {
 	if gsxEnv.readFails[name] {
 		return nil, errors.New("open " + name + ": permission denied")
+	}
+	if gsxEnv.emptyFile[name] {
+		return []byte{}, nil
 	}
 	return []byte("package gorules"), nil
 }
@@ -84,6 +88,7 @@ func gsxStubRun(e *ruleguard.Engine, ctx *ruleguard.RunContext, f *ast.File) err
 var gsxRunCtxSeen ruleguard.RunContext
 
 // a checker may own a runner state; the model needs none
+//
 //gsx:stub github.com/quasilyte/go-ruleguard/ruleguard.NewRunnerState = gsxStubNewRunnerState
 func gsxStubNewRunnerState(e *ruleguard.Engine) *ruleguard.RunnerState { return nil }
 
@@ -120,8 +125,9 @@ func gsxC18Ctx() *linter.CheckerContext {
 // nothing / matches 1 or 2 files, pattern 1 matches nothing or 1 file; every
 // file is readable or not, and loads fine, with an import fault or a DSL fault.
 type gsxFileFault struct {
-	name string
-	kind int // 0 ok, 1 unreadable, 2 import fault, 3 dsl fault
+	empty bool // kind 3 realised as a file of zero bytes
+	name  string
+	kind  int // 0 ok, 1 unreadable, 2 import fault, 3 dsl fault, 4 a readable file of zero bytes (does not follow the DSL either)
 }
 
 func gsxC18Schedule(env *gsxC18Env, patterns []string, maxFiles []int, malformed bool) (files []gsxFileFault) {
@@ -137,8 +143,13 @@ func gsxC18Schedule(env *gsxC18Env, patterns []string, maxFiles []int, malformed
 		for k := 0; k < n; k++ {
 			name := "f" + gsxDigit(i) + gsxDigit(k) + ".go"
 			env.globNames[pat] = append(env.globNames[pat], name)
-			ff := gsxFileFault{name: name, kind: gsxrt.Choose("fault."+name, 4)}
+			ff := gsxFileFault{name: name, kind: gsxrt.Choose("fault."+name, 5)}
 			env.readFails[name] = ff.kind == 1
+			if ff.kind == 4 {
+				env.emptyFile[name] = true
+				ff.kind = 3 // for the policy an empty file is a DSL fault like any other
+				ff.empty = true
+			}
 			switch ff.kind {
 			case 1, 3:
 				env.loadResult[name] = 2 // an unreadable file is loaded as empty text: not valid DSL
@@ -204,6 +215,9 @@ func gsxMaterialise(env *gsxC18Env, patterns []string, files []gsxFileFault) []s
 	kinds := map[string]int{}
 	for _, f := range files {
 		kinds[f.name] = f.kind
+		if f.empty {
+			kinds[f.name] = 4
+		}
 	}
 	out := make([]string, len(patterns))
 	for i, pat := range patterns {
@@ -226,6 +240,8 @@ func gsxMaterialise(env *gsxC18Env, patterns []string, files []gsxFileFault) []s
 					os.WriteFile(path, []byte(fmt.Sprintf(gsxRuleImportFault, id)), 0o644)
 				case 3:
 					os.WriteFile(path, []byte(fmt.Sprintf(gsxRuleDslFault, id)), 0o644)
+				case 4:
+					os.WriteFile(path, nil, 0o644)
 				}
 			}
 		}
@@ -244,7 +260,7 @@ func gsxCleanup() {
 
 func gsxC18Env0() *gsxC18Env {
 	env := &gsxC18Env{globNames: map[string][]string{}, globBad: map[string]bool{}, readFails: map[string]bool{},
-		loadResult: map[string]int{}, accepted: map[string]bool{}}
+		loadResult: map[string]int{}, accepted: map[string]bool{}, emptyFile: map[string]bool{}}
 	gsxEnv = env
 	return env
 }
@@ -348,7 +364,7 @@ func gsxDigit(i int) string { return string(rune('0' + i)) }
 // and not disabled by name or tag; experimental groups only when asked for.
 func gsxC18GroupFilter() {
 	env := &gsxC18Env{globNames: map[string][]string{"r.go": {"r.go"}}, globBad: map[string]bool{}, readFails: map[string]bool{},
-		loadResult: map[string]int{}, accepted: map[string]bool{}}
+		loadResult: map[string]int{}, accepted: map[string]bool{}, emptyFile: map[string]bool{}}
 	gsxEnv = env
 	name := gsxrt.StringN("group.name", 3)
 	gsxrt.Assume(gsxrt.Matches(`^[a-z]+$`, name))
@@ -453,7 +469,7 @@ func gsxC18GroupFilter() {
 // error nothing is analysed.
 func gsxC18NoRules() {
 	env := &gsxC18Env{globNames: map[string][]string{}, globBad: map[string]bool{}, readFails: map[string]bool{},
-		loadResult: map[string]int{}, accepted: map[string]bool{}}
+		loadResult: map[string]int{}, accepted: map[string]bool{}, emptyFile: map[string]bool{}}
 	gsxEnv = env
 	c, err := newRuleguardChecker(gsxC18Info("", gsxrt.StringN("failOn", 4), gsxrt.Bool("legacy"), "<all>", ""), gsxC18Ctx())
 	gsxrt.Reached("constructed")
